@@ -347,9 +347,6 @@ class DPRNNBase(RenameParamsMixin, nn.Module):
 
             seq_length = len(batch_sizes)
             max_batch_size = int(batch_sizes[0])
-
-            for cell in self.cells:
-                cell.set_max_batch_length(max_batch_size)
         else:
             dtype, device = input.dtype, input.device
             batch_sizes = None
@@ -364,6 +361,11 @@ class DPRNNBase(RenameParamsMixin, nn.Module):
 
             seq_length = x.shape[0]
             max_batch_size = x.shape[1]
+
+        # Set for every forward: a value left by an earlier packed forward that was not followed
+        # by a backward (evaluation) would otherwise be taken for the size of this batch.
+        for cell in self.cells:
+            cell.set_max_batch_length(max_batch_size)
 
         if self.has_cell_state:
             h_0s, c_0s = state_init or (None, None)
